@@ -391,6 +391,12 @@ def run(ctx, prop):
                 hist.append(('moves', hc))
         for _ in range(150 if ctx.quick else 3000):
             hist.append(('stale', gen_stale(scn, rng)))
+        # a new master on a store with stale-view leftovers, cut at every start-up write
+        for _ in range(25 if ctx.quick else 400):
+            h = gen_stale(scn, rng)
+            k0 = next(i for i, e in enumerate(h) if e[0] == 'StaleCycle')
+            for k in range(1, 13):
+                hist.append(('stale-cuts', h[:k0 + 1] + [('CrashRestart', [k]), ('Restart', []), ('Cycle', [])]))
     if prop in ('C10', 'C09'):
         gmod2, gcfg2, gfiles2 = lag_cfg(max_events=7, max_cycles=4, invariants=())
         lb, lcmd = tlc.simulate(mc.SPEC_DIR, gmod2, gcfg2, num=120 if ctx.quick else 3000,
@@ -408,6 +414,12 @@ def run(ctx, prop):
     traces = mc.record('base', [h for _, h in hist])
     for (src, _), t in zip(hist, traces):
         t['src'] = src
+    if prop in ('C11', 'C09'):
+        hh = [mc.gen_hetero(mc.SCENARIOS['hetero'], rng) for _ in range(60 if ctx.quick else 800)]
+        ht = mc.record('hetero', hh)
+        for t in ht:
+            t['src'] = 'hetero'
+        traces += ht
     ctx.log('recorded %d traces, %d lines' % (len(traces), sum(len(t['lines']) for t in traces)))
     verdicts, stats = mc.validate(traces, timeout=600 if ctx.quick else 3000)
     ctx.cmds.append(stats['cmd'])
@@ -437,7 +449,7 @@ def judge(ctx, prop, traces, verdicts):
                     clause=f, signature=f,
                     what='after %s%s at step %d of %s %s' % (line['ev'], line['args'], v['i'], t['tid'],
                                                              line.get('exc', '')),
-                    replay_payload=dict(kind='master_l2', property=prop, clause=f, scenario='base',
+                    replay_payload=dict(kind='master_l2', property=prop, clause=f, scenario=t['tid'].split(':')[0],
                                         history=t['history'][:v['i']], failed_step=v['i'])))
     samples = []
     for t in traces:
